@@ -400,18 +400,11 @@ impl Ctx {
         let m = mem();
         let log = std::mem::take(&mut m.log);
         let now = self.model.table_frames();
-        // recursive mapper: the first access to a frame that became a table in this call must be a
-        // write (the zeroing) — reading an entry of a new table before it is zeroed is "use before zero"
-        if self.backend == Backend::Recursive {
-            let mut seen: BTreeSet<u64> = BTreeSet::new();
-            for a in &log {
-                if let Access::Mmu { frame, write, vpage } = *a {
-                    if seen.insert(frame) && now.contains(&frame) && !tables_before.contains(&frame) && !write {
-                        fail!(T_C09, "step {} (Recursive): the first access to the newly allocated table frame {:#x} (through {:#x}) was a read: an entry of the new table was used before the table was zeroed", self.step, frame, vpage);
-                    }
-                }
-            }
-        }
+        // (removed, false alarm: an earlier version required the recursive mapper's first access to a
+        // frame that became a table in this call to be a write. A zeroing routine that reads each slot
+        // and writes only the non-zero ones leaves the table completely zeroed before any entry is
+        // used, so the property holds and the rule demanded more than it states. Use of junk entries
+        // is decided by its effect instead: the junk shapes point at the guard frame / at data frames.)
         for a in &log {
             match *a {
                 Access::Pointer(f) => {
